@@ -114,3 +114,14 @@ Definition zdist_l (W : nat) (mt : metric) (a b : list Z) : Z :=
   | Manhattan => manh_l W a b
   | CosineN s2 => s2 - dot_l W a b
   end.
+
+(** cosine over the rationals: HnswIndex stores [v / |v|] and evaluates [1 - dot] *)
+From Coq Require Export QArith.
+Fixpoint dotq (a b : list Q) : Q :=
+  match a, b with
+  | x :: a', y :: b' => (x * y + dotq a' b')%Q
+  | _, _ => 0%Q
+  end.
+(** [normalize]: divide every coordinate by the norm *)
+Definition scaleq (n : Q) (a : list Q) : list Q := map (fun x => (x / n)%Q) a.
+Open Scope Z_scope.
